@@ -449,18 +449,18 @@ theorem applyEffect_pk_tok (w : World) (i : Nat) (e : Effect)
 /-! ### the action loop -/
 
 /-- the heap edit of changePermissionsAction (a copy of the model's text): `rec` says whether the
-client's group allows recording -/
-def permEdit (h : Heap) (s : Slice) (rec : Bool) (kind : String) : Option (Heap × Slice) :=
+client's group allows recording, `fx` carries the repair flag of `remove` -/
+def permEdit (fx : Fixes) (h : Heap) (s : Slice) (rec : Bool) (kind : String) : Option (Heap × Slice) :=
   if kind = "op" then
     let (h, s) := addnewS h s "op"
     if rec then some (addnewS h s "record")
     else some (h, s)
   else if kind = "unop" then
-    let (h, s) := removeS h s "op"
-    some (removeS h s "record")
+    let (h, s) := removeFix fx h s "op"
+    some (removeFix fx h s "record")
   else if kind = "present" then some (addnewS h s "present")
-  else if kind = "unpresent" then some (removeS h s "present")
-  else if kind = "shutup" then some (removeS h s "message")
+  else if kind = "unpresent" then some (removeFix fx h s "present")
+  else if kind = "shutup" then some (removeFix fx h s "message")
   else if kind = "unshutup" then some (addnewS h s "message")
   else none
 
@@ -468,7 +468,7 @@ def permEdit (h : Heap) (s : Slice) (rec : Bool) (kind : String) : Option (Heap 
 theorem handleAction_changePerm (w : World) (i : Nat) (c : Client) (kind : String) (hc : w.client? i = some c) :
     handleAction w i (.changePerm kind) =
       if w.fix.p19 ∧ c.group.isNone then (w, none) else
-      match permEdit w.heap c.perms ((c.group.bind w.group?).any (fun g => g.cfg.allowRecording)) kind with
+      match permEdit w.fix w.heap c.perms ((c.group.bind w.group?).any (fun g => g.cfg.allowRecording)) kind with
       | none => (w, some (.user "unknown permission"))
       | some (h, s) =>
         ((({ w with heap := h } : World).modClient i (fun c => { c with perms := s })).enq i .permChanged, none) := by
@@ -476,16 +476,16 @@ theorem handleAction_changePerm (w : World) (i : Nat) (c : Client) (kind : Strin
   rw [hc]
   rfl
 
-theorem permEdit_ok (h : Heap) (s : Slice) (rec : Bool) (kind : String) (r : Heap × Slice) (hw : h.WF s)
-    (he : permEdit h s rec kind = some r) : EditOK h s r := by
+theorem permEdit_ok (fx : Fixes) (h : Heap) (s : Slice) (rec : Bool) (kind : String) (r : Heap × Slice) (hw : h.WF s)
+    (he : permEdit fx h s rec kind = some r) : EditOK h s r := by
   unfold permEdit at he
   split_ifs at he
   all_goals (simp only [Option.some.injEq] at he; try subst he)
   all_goals first
     | exact addnewS_ok h s _ hw
-    | exact removeS_ok h s _ hw
+    | exact removeFix_ok fx h s _ hw
     | exact (addnewS_ok h s _ hw).trans (addnewS_ok _ _ _ (addnewS_ok h s _ hw).wf)
-    | exact (removeS_ok h s _ hw).trans (removeS_ok _ _ _ (removeS_ok h s _ hw).wf)
+    | exact (removeFix_ok fx h s _ hw).trans (removeFix_ok fx _ _ _ (removeFix_ok fx h s _ hw).wf)
 
 /-- every action except the permission change leaves the skeleton alone -/
 theorem handleAction_pk_plain (w : World) (i : Nat) (a : Action) (ha : ∀ k, a ≠ .changePerm k) :
